@@ -101,9 +101,9 @@ type peerItem struct {
 func (p *peerItem) active() bool { return p.status == stCandidate || p.status == stConsensus }
 
 type authInfo struct {
-	pub                                        string
-	addr                                       common.Address
-	cons, cand, newp, wcons, wcand, unfreeze   uint64
+	pub                                      string
+	addr                                     common.Address
+	cons, cand, newp, wcons, wcand, unfreeze uint64
 }
 
 func (a *authInfo) staked() uint64 { return a.cons + a.cand + a.newp }
